@@ -330,6 +330,90 @@ where
         return Err("sibling circuit has the same preprocessed commitment".into());
     }
     native_rt("sibling-circuit", &sib);
+    // Fields of the proof object that serialisation does not carry (`stark_common.lookups` is
+    // re-derived from the AIRs after deserialisation): a verifier must not let the in-memory value
+    // decide. Each base proof gets its lookup contexts altered in memory; the verdict must equal
+    // the verdict after a round trip, and a proof of an invalid trace must stay rejected.
+    {
+        let derived = a.cpd.common_data().lookups.clone();
+        let n_tab = derived.len();
+        let mut variants: Vec<(&'static str, Vec<p3_lookup::Lookups<p3_uni_stark::Val<S::SC>>>)> = vec![];
+        variants.push(("lookups-all-emptied", vec![Default::default(); n_tab]));
+        if n_tab >= 1 {
+            let mut v = derived.clone();
+            *v.last_mut().unwrap() = Default::default();
+            variants.push(("lookups-last-table-emptied", v));
+            let mut v = derived.clone();
+            v[0] = Default::default();
+            variants.push(("lookups-first-table-emptied", v));
+        }
+        if n_tab >= 2 {
+            let mut v = derived.clone();
+            v.swap(0, n_tab - 1);
+            variants.push(("lookups-first-last-swapped", v));
+        }
+        let mut mem_check = |kind: &'static str, p: &BatchStarkProof<S::SC>, invalid: bool| {
+            for (alt, lk) in &variants {
+                let codec: &'static str = match *alt {
+                    "lookups-all-emptied" => "in-memory:stark_common.lookups/all-emptied",
+                    "lookups-last-table-emptied" => "in-memory:stark_common.lookups/last-table-emptied",
+                    "lookups-first-table-emptied" => "in-memory:stark_common.lookups/first-table-emptied",
+                    _ => "in-memory:stark_common.lookups/first-last-swapped",
+                };
+                let finding = match <S::SC as ScOps>::postcard_roundtrip(p) {
+                    Err(e) => Some(format!("roundtrip-failed: {e}")),
+                    Ok(mut q) => {
+                        q.stark_common.lookups = lk.clone();
+                        let v_mem = guarded(|| S::verify(&prover, &q).is_ok()).unwrap_or(false);
+                        let v_rt = match <S::SC as ScOps>::postcard_roundtrip(&q) {
+                            Ok(q2) => guarded(|| S::verify(&prover, &q2).is_ok()).unwrap_or(false),
+                            Err(_) => false,
+                        };
+                        // relying party: verdict AND the proof is bound to the pinned key generation
+                        let bound = <S::SC as ScOps>::commitment(&q.stark_common) == pinned;
+                        if invalid && v_mem && bound {
+                            Some("invalid-proof-accepted: in-memory lookup contexts decide the verdict".to_string())
+                        } else if v_mem != v_rt {
+                            Some(format!("roundtrip-verdict-changed: {v_mem} -> {v_rt}"))
+                        } else {
+                            None
+                        }
+                    }
+                };
+                native_roundtrips.push((kind, codec, finding));
+            }
+        };
+        mem_check("honest", &honest, false);
+        mem_check("sibling-circuit", &sib, true);
+        // a proof of a forged trace made by a prover that stripped the lookup contexts from its
+        // prover data (the cross-table bus is then not part of what was proven)
+        let mut stripped = a.cpd;
+        for l in stripped.prover_data.common.lookups.iter_mut() {
+            *l = Default::default();
+        }
+        let mut t = run_circuit::<S>(&a.circuit, &a.pubs)?;
+        if forge::<S>(&mut t, "forged-alu-consistent") || forge::<S>(&mut t, "forged-alu-out") {
+            match guarded(|| S::prove(&prover, &t, &stripped)) {
+                Ok(Ok(p)) => {
+                    let v_mem = guarded(|| S::verify(&prover, &p).is_ok()).unwrap_or(false);
+                    let v_rt = match <S::SC as ScOps>::postcard_roundtrip(&p) {
+                        Ok(q2) => guarded(|| S::verify(&prover, &q2).is_ok()).unwrap_or(false),
+                        Err(_) => false,
+                    };
+                    let finding = if v_mem {
+                        Some("invalid-proof-accepted: proof made without the cross-table bus".to_string())
+                    } else if v_mem != v_rt {
+                        Some(format!("roundtrip-verdict-changed: {v_mem} -> {v_rt}"))
+                    } else {
+                        None
+                    };
+                    native_roundtrips.push(("honest", "in-memory:prover-stripped-lookups/forged-trace", finding));
+                }
+                // a prover that cannot produce such a proof at all is a rejection
+                _ => native_roundtrips.push(("honest", "in-memory:prover-stripped-lookups/forged-trace", None)),
+            }
+        }
+    }
     let sib_json = <S::SC as ScOps>::to_json(&sib);
     let sibling_common = sib_json["stark_common"].clone();
     bases.push(Base {
